@@ -15,6 +15,35 @@ LOGX = {"name": "logx", "crate": "logx", "bin": "logx", "kind": "verif", "args":
 PROCX = {"name": "procx", "crate": "procx", "bin": "procx", "kind": "verif", "args": [],
          "about": "E4: one child process per logging configuration (process-global dispatchers); exhaustive configuration lattice × event script vs a reference routing function; shutdown cut at every script position"}
 
+CACHEX = {"name": "cachex", "crate": "cachex", "bin": "cachex", "kind": "verif", "args": [],
+          "about": "E2: exhaustive operation / clock-step / maintenance histories on the real cache (virtual clock H1, no background threads H2) vs a register-per-key model; residency dump, synchronous listener pump"}
+
+CACHE_ASSUME = [
+    "single thread, background threads off (hook H2): the janitor's work happens only through run_maintenance(); interleavings are the lockstep engine's job",
+    "time is the virtual clock of hook H1; Adv steps land before, exactly on and after each deadline",
+    "fixed identity hasher (key k lives in shard k mod shards); RandomPolicy's victim choice is not controlled",
+    "which non-get/fetch operations refresh the idle timer is unspecified: enumeration and entry() may or may not",
+]
+CACHE_RULE = ("all histories up to the depth over per-family alphabets (cost/cost2: inserts with costs 1, 2, capacity+1, remove, clear, maintenance, snapshot+restore; "
+              "ttl/ttlshort/tti: inserts, per-insert TTL, every read API, enumeration, maintenance, clock steps to deadline−1ns/deadline/deadline+; read: every read API, entry, compute, invalidate; "
+              "iter: contents 0..5 entries × batch sizes 1..3 × shards 1/2/4 × snapshot round trip) for each policy/capacity/shard configuration listed in the scenarios; "
+              "each history re-executed on a fresh real cache; after every step: read results vs the per-key register model, listener notifications vs the residency diff, "
+              "current_cost vs resident cost; after maintenance also the capacity bound; non-trivial = ≥1 hit and ≥1 value overwritten/removed/evicted/expired")
+
+
+def cache(level_text, design_ref):
+    return {
+        "jobs": [CACHEX],
+        "level": "model_checking",
+        "level_text": level_text,
+        "level_note": "trusts the per-key register model and the residency dump of hook verif::dump; sequential histories only (see lockstep for interleavings); depth and alphabets as reported per scenario",
+        "technique": "stateless exhaustive DFS over operation/clock/maintenance histories of the real cache vs reference model",
+        "design_ref": design_ref,
+        "rule": CACHE_RULE,
+        "assumptions": CACHE_ASSUME,
+    }
+
+
 CHAN_ASSUME = [
     "single OS thread per history: interleavings are the loom engine's job (loomx), not this one's",
     "a future is dropped before the handle it borrows; a Stream poll and a future of the same handle are never awaited at once (the borrow checker enforces both)",
@@ -49,6 +78,11 @@ CHECKS = {
     "C04": chan("every order of clone/close/drop/convert on ≤2 handles per side within the bound: drain then Disconnected, Closed hands the value back, closed handles reject every form, close is idempotent", "§4 C04, §2 E2"),
     "C06": chan("idle-stall probe after every explored history: when no task is runnable no pending future/stream may be able to complete; cancellation at every point of every history loses/duplicates nothing", "§4 C06, §2 E2"),
     "C09": chan("drop ledger after every explored history and every teardown order in the alphabet: each payload instance dropped exactly once; the quick space is re-run under AddressSanitizer in the thorough tier", "§4 C09, §2 E2", extra_jobs=(SEQX_ASAN,)),
+    "C11": cache("every read API on every explored history returns nothing or the latest live value of its own key; or_insert inserts at most once; compute applies once", "§5 C11"),
+    "C12": cache("every read API at every explored virtual time: never an entry at/after its expiry; unbounded caches never lose a live entry however many maintenance passes run", "§5 C12"),
+    "C13": cache("after every step of every explored history current_cost equals the resident cost, and after maintenance the resident cost is within capacity, for all eight policies", "§5 C13"),
+    "C16": cache("after every step the listener's notifications are matched against the residency diff: truthful, right reason, never twice, none missing", "§5 C16"),
+    "C17": cache("every enumeration API on every explored content/batch/shard combination yields exactly the stored unexpired entries once; snapshot → bincode → restore preserves mapping, costs, lifetimes, and the restored cache is held to the capacity oracle", "§5 C17"),
     "C14": {
         "jobs": [POLICYX],
         "level": "model_checking",
